@@ -54,9 +54,11 @@ def scenarios(ctx):
     # ---- what `whatshap phase` hands to the solver per family (H1 hook): depth far above the cap ----
     from .. import phaseworld as PW
     for i in range(300 if q else 5000):
-        fam = rng.choice(["single", "two", "trio", "quartet"])
-        ped = {"trio": [["s1", "s2", "s3"]], "quartet": [["s1", "s2", "s3"], ["s1", "s2", "s4"]]}.get(fam, [])
-        w = PW.rand_world(rng, nsamples={"single": 1, "two": 2, "trio": 3, "quartet": 4}[fam], nchroms=1, ped=ped,
+        fam = rng.choice(["single", "two", "trio", "quartet", "trio+1", "trio+1"])
+        # trio+1: a trio and an unrelated fourth sample in ONE run (families of different sizes, each with its own share of the cap)
+        ped = {"trio": [["s1", "s2", "s3"]], "quartet": [["s1", "s2", "s3"], ["s1", "s2", "s4"]],
+               "trio+1": [["s1", "s2", "s3"]] if rng.random() < 0.5 else [["s2", "s3", "s4"]]}.get(fam, [])
+        w = PW.rand_world(rng, nsamples={"single": 1, "two": 2, "trio": 3, "quartet": 4, "trio+1": 4}[fam], nchroms=1, ped=ped,
                           max_sites=rng.choice([4, 7]), depth=rng.choice([(3, 8), (10, 20)]), het_prob=0.9, kinds=("snv",))
         w["opts"] = {"ped": bool(ped), "max_coverage": rng.choice([4, 5, 6, 8, 15])}
         if rng.random() < 0.25:
